@@ -160,6 +160,7 @@ Judge(gm, p, O) ==
 (* --------------- input classes on which a coded deviation can show (for triage) --------------- *)
 HasRelative(gm) == \E i \in 1..Len(gm.lines) : LET raw == gm.lines[i] IN
                        IsLink(raw) /\ IsRelativeSel(IF Len(Field(raw, 2)) = 0 THEN From(Field(raw, 1), 2) ELSE Field(raw, 2))
+                       /\ Len(Field(raw, 1)) > 0 /\ Ch(Field(raw, 1), 1) # "i"     \* the selector of an info entry is not shown
 HasHostNoPort(gm) == \E i \in 1..Len(gm.lines) : LET raw == gm.lines[i] IN
                        IsLink(raw) /\ Len(Field(raw, 3)) > 0 /\ Len(Field(raw, 4)) = 0
                        /\ Len(Field(raw, 1)) > 0 /\ Ch(Field(raw, 1), 1) # "i"
